@@ -53,17 +53,34 @@ TReset ==
     /\ TraceLog[l].e = "Reset"
     /\ doc' = Null
 
+RECURSIVE ObsOK(_)      \* the projection met no getter failure
+ObsOK(o) ==
+    CASE o.t \in {"n", "s"} -> TRUE
+      [] o.t = "m" -> \A i \in 1..Len(o.kv) : ObsOK(o.kv[i].d)
+      [] o.t = "l" -> \A i \in 1..Len(o.it) : ObsOK(o.it[i])
+      [] OTHER -> FALSE
+
 TCall ==
     LET ev == TraceLog[l]
     IN /\ ev.e \in Kinds
-       /\ LET r == Do(doc, OpOf(ev))
-          IN /\ Explain((ev.ok = 1) = r.ok, <<l, ev.e, "ok", r.ok>>)
-             /\ Explain(r.ok => ValMatches(ev.e, r, ev), <<l, ev.e, "val", r.val>>)
-             /\ Explain((~r.ok /\ r.err # {}) => ev.err \in r.err,
-                        <<l, ev.e, "err", r.err>>)
-             /\ Explain(NoDupKeys(ev.obs) /\ FromObs(ev.obs) = r.doc,
-                        <<l, ev.e, "obs", r.doc>>)
-             /\ doc' = r.doc
+       /\ IF ev.fault # 0 /\ ev.ok = 0
+          THEN \* Fault.tla: the call met the injected allocation failure.  It
+               \* must report ENOMEM and leave a usable tree; the abstract
+               \* state is kept, so the retry that follows (next event) must
+               \* give the result of a fault-free call from the state before
+               \* the fault (C12).
+               /\ Explain(ev.err = "ENOMEM", <<l, ev.e, "fault-err", {"ENOMEM"}>>)
+               /\ Explain(ObsOK(ev.obs), <<l, ev.e, "fault-usable", TRUE>>)
+               /\ doc' = doc
+          ELSE LET r == Do(doc, OpOf(ev))
+               IN /\ Explain(ObsOK(ev.obs), <<l, ev.e, "obs-usable", r.doc>>)
+                  /\ Explain((ev.ok = 1) = r.ok, <<l, ev.e, "ok", r.ok>>)
+                  /\ Explain(r.ok => ValMatches(ev.e, r, ev), <<l, ev.e, "val", r.val>>)
+                  /\ Explain((~r.ok /\ r.err # {}) => ev.err \in r.err,
+                             <<l, ev.e, "err", r.err>>)
+                  /\ Explain(NoDupKeys(ev.obs) /\ FromObs(ev.obs) = r.doc,
+                             <<l, ev.e, "obs", r.doc>>)
+                  /\ doc' = r.doc
 
 (* malformed descriptor: refused with EINVAL, nothing changes *)
 TBad ==
